@@ -1,0 +1,47 @@
+// Copyright 2026 SCION Association
+//
+// Licensed under the Apache License, Version 2.0 (the "License");
+// you may not use this file except in compliance with the License.
+// You may obtain a copy of the License at
+//
+//   http://www.apache.org/licenses/LICENSE-2.0
+//
+// Unless required by applicable law or agreed to in writing, software
+// distributed under the License is distributed on an "AS IS" BASIS,
+// WITHOUT WARRANTIES OR CONDITIONS OF ANY KIND, either express or implied.
+// See the License for the specific language governing permissions and
+// limitations under the License.
+
+//go:build verif
+
+package udpip
+
+import (
+	"github.com/scionproto/scion/router"
+)
+
+// Thin exports for the external verification harness (/verif). No behaviour of its own.
+
+// VerifDemux runs the receive-side classification (computeProcID) of the given link on data: ok=false means the
+// bytes are not handed to a packet processor (dropped on external/sibling links, handed to the internal link's own
+// processor on the internal link).
+func VerifDemux(l router.Link, data []byte, numProc int) (uint32, bool) {
+	switch v := l.(type) {
+	case *internalLink:
+		return computeProcID(data, numProc, v.seed)
+	case *connectedLink:
+		return computeProcID(data, numProc, v.seed)
+	case *detachedLink:
+		return computeProcID(data, numProc, v.seed)
+	}
+	panic("not a udpip link")
+}
+
+// VerifIsInternal reports whether l is the udpip internal link.
+func VerifIsInternal(l router.Link) bool { _, ok := l.(*internalLink); return ok }
+
+// VerifInternalProcessPacket runs internalLink.processPacket (the STUN responder) on pkt. Afterwards pkt.Link is
+// nil if the packet is to be dropped; otherwise pkt.RawPacket is sent back to pkt.RemoteAddr.
+func VerifInternalProcessPacket(l router.Link, pkt *router.Packet) error {
+	return l.(*internalLink).processPacket(pkt)
+}
